@@ -55,6 +55,7 @@ def run_group(ctx, prop, lean=True, other_tiers=True):
     p = ctx.proof
     all_obs = []
     per_func = {}
+    used_assumed = set()
     t0 = time.time()
     for (rel, qual), c in todo:
         eng = engine.Engine(repo, contracts, models)
@@ -71,6 +72,7 @@ def run_group(ctx, prop, lean=True, other_tiers=True):
             p['unsupported'].append({'function': fname, 'reason': 'not found: {}'.format(e)})
             print('PROOF-DEGRADED {}: function not found in the tree ({})'.format(fname, e))
             continue
+        used_assumed |= eng.used_assumed
         mine = [ob for ob in obs if prop in clause_props(c, ob.kind, ob.name)
                 or ob.kind in ('inv-init', 'inv-pres', 'decreases')]
         if not obs:
@@ -133,10 +135,11 @@ def run_group(ctx, prop, lean=True, other_tiers=True):
     from pyvc import specs as _specs
     if todo and _specs.ASSUMED_SCHEMAS:
         ctx.assume('ASSUMED LEMMAS (schemas instantiated in VCs without a Lean proof yet; validated by reading only): ' + ', '.join(_specs.ASSUMED_SCHEMAS))
-    for (rel, qual), c in contracts.items():
-        if c.get('assumed') and any(prop in cc.get('property', []) for cc in [c] + [x for _, x in todo]):
-            ctx.assume('assumed contract {}:{} - {}'.format(rel, qual, c['assumed']))
-        if c.get('note') and prop in c.get('property', []):
+    for (rel, qual) in sorted(used_assumed):
+        c = contracts[(rel, qual)]
+        ctx.assume('assumed contract {}:{} - {}'.format(rel, qual, c.get('assumed') or c.get('trusted')))
+    for (rel, qual), c in todo:
+        if c.get('note'):
             ctx.assume('{}:{} - {}'.format(rel, qual, c['note']))
     return per_func
 
